@@ -80,7 +80,7 @@ func (g *G) genStored(focus string) storedSpec {
 		s.maxAge = strconv.FormatInt(g.lifetime(), 10)
 	}
 	if g.chance(0.35) {
-		s.expiresOff = pick(g, "invalid", "0", "-10", "10", "100", "3600", "0invalid")
+		s.expiresOff = pick(g, "invalid", "0", "-10", "10", "100", "3600", "0invalid", "empty", "empty")
 		if s.expiresOff == "0invalid" {
 			s.expiresOff = "invalid"
 		}
@@ -118,6 +118,13 @@ func (g *G) genStored(focus string) storedSpec {
 		s.delayNs = pick(g, int64(1), sec, 2*sec, 3*sec+1)
 	}
 	s.extra = Hdr{{"X-Secret", "s3"}, {"X-Other", "o"}}
+	if g.chance(0.1) {
+		// an origin (or an inner cache of the same kind) that sends the cache's own status fields
+		s.extra = append(s.extra, pick(g, [2]string{"X-From-Cache", "1"}, [2]string{"X-Httpcache-Status", "HIT"}, [2]string{"X-From-Cache", "0"}))
+		if g.chance(0.5) {
+			s.extra = append(s.extra, [2]string{"X-Httpcache-Status", pick(g, "STALE", "MISS", "bogus")})
+		}
+	}
 	return s
 }
 
@@ -145,6 +152,8 @@ func (s storedSpec) reply(atNs int64, body string) Reply {
 	case "":
 	case "invalid":
 		h = append(h, [2]string{"Expires", "0"})
+	case "empty":
+		h = append(h, [2]string{"Expires", ""})
 	default:
 		off, _ := strconv.ParseInt(s.expiresOff, 10, 64)
 		h = append(h, [2]string{"Expires", httpDate(dateSec + off)})
